@@ -30,7 +30,9 @@ TWO53 = 2 ** 53
 
 # ============================================================================ Coq printing
 def zc(n: int) -> str:
-    return f"({n})" if n < 0 else str(n)
+    # decimal literals of hundreds of digits take Coq ~0.3 s each to parse; hexadecimal ones are linear
+    s = hex(n) if abs(n) >= 2 ** 64 else str(n)
+    return f"({s})" if n < 0 else s
 
 
 def rl_coq(v) -> str:
@@ -802,8 +804,11 @@ def run(ctx):
     cases, info, quotients = [], [], set()
     todo = []
     for name, L in limit_sets(zb):
-        for kind, es in lattice(ctx, name, L):
-            todo.append((name, L, kind, es))
+        block = [(name, L, kind, es) for kind, es in lattice(ctx, name, L)]
+        if name in ("huge", "wide"):   # 1100-bit literals are slow to parse: a sample of these two sets is enough
+            ctx.rng.shuffle(block)
+            block = block[: ctx.n(60, 400)]
+        todo += block
     for nm, L, es in special_cases(zb):
         todo.append((nm, L, "special", es))
     seen = set()
@@ -865,7 +870,7 @@ def run(ctx):
     dcases = []
     for a, b in pairs:
         r = py_div(a, b)
-        dcases.append(f"({a}, {b}, " + ("None" if r is None else f"Some ({zc(r[0])}, {zc(r[1])})") + ")")
+        dcases.append(f"({zc(a)}, {zc(b)}, " + ("None" if r is None else f"Some ({zc(r[0])}, {zc(r[1])})") + ")")
         ctx.case(("div", a, b), True, kind="int/int")
         # property oracle for C11_ratio_exact, on CPython itself
         if a < TWO53:
